@@ -100,7 +100,7 @@ func (r *Report) modelInputs(e *Enc, ob *Obligation) (map[string]interface{}, ma
 	}
 	try := func(extra []string) (string, bool) {
 		o2 := *ob
-		o2.Extra = append(append([]string{}, ob.Extra...), extra...)
+		o2.Extra = append(append(append([]string{}, ob.Extra...), ob.Res.Cube...), extra...)
 		q := e.query(&o2, true)
 		res := solve(r.Work, ob.Name+".model", q, r.Opts.timeout, r.Opts.seed, "z3")
 		if res.Status == "sat" {
